@@ -40,7 +40,7 @@ fn check_padded(result: &str, s_bytes: &[u8], n_chars: usize, fw: usize, left: b
     assert!(result.chars().count() >= fw, "a rendered field is never shorter than its width counted in characters");
 }
 
-// @harness id=c19_field_padding_array props=C19,C18 tier=thorough cap=1500
+// @harness id=c19_field_padding_array props=C19,C18 tier=attempt cap=1500
 // @desc do_std_format_codes_array_3 (the field-width step of std.format / % with an array) on a rendered value of two arbitrary characters (any UTF-8 widths) and any width 0..=6 and justification: the field gets exactly width - 2 spaces (none if width <= 2) on the correct side, i.e. it is never shorter than its width counted in characters, and the next part is scheduled
 // @bound values of 2 arbitrary Unicode scalar values (2..8 bytes), width <= 6
 // @funcs Evaluator::do_std_format_codes_array_3
@@ -89,7 +89,7 @@ fn c19_field_padding_array() {
 }
 }
 
-// @harness id=c19_field_padding_object props=C19,C18 tier=thorough cap=1500
+// @harness id=c19_field_padding_object props=C19,C18 tier=attempt cap=1500
 // @desc do_std_format_codes_object_2 (the field-width step of % with an object) under the same conditions as c19_field_padding_array
 // @bound values of 2 arbitrary Unicode scalar values, width <= 6
 // @funcs Evaluator::do_std_format_codes_object_2
@@ -137,7 +137,7 @@ fn c19_field_padding_object() {
 }
 }
 
-// @harness id=c19_decorate_digits props=C19 tier=thorough cap=1500
+// @harness id=c19_decorate_digits props=C19 tier=attempt cap=1500
 // @desc decorate_digits (sign / zero padding shared by %d %i %u %e %f %g) for digit strings of 1, 2 or 4 characters, any flag combination, zero-pad width <= 9 and minimum digits <= 9: result = sign (- over + over space) ++ zeros ++ digits, with exactly max(min_digits - len, min_chars - (sign + len), 0) zeros, so the field has at least min_chars characters and at least min_digits digits and never more zeros than either rule asks for
 // @bound digits in {"7","42","1.50"}, min_chars <= 9, min_digits <= 9, all flags
 // @funcs format::decorate_digits
